@@ -195,6 +195,8 @@ def plan(tier, seed):
             shards.append({'kind': 'random', 'n': 400, 'depth': 4, 'vals': [0, 1, 2]})
         shards.append({'kind': 'literals', 'n': 5000})
         shards.append({'kind': 'special', 'vals': [0, 1, 4]})
+        shards.append({'kind': 'sheets', 'n': 6})
+        shards.append({'kind': 'sheets', 'n': 6})
     else:
         shards.append({'kind': 'special', 'vals': [0, 1, 2, 3, 4]})
         for part in range(8):
@@ -205,6 +207,8 @@ def plan(tier, seed):
             shards.append({'kind': 'random', 'n': 2000, 'depth': 4, 'vals': [0, 1, 2, 3, 4]})
         for part in range(6):
             shards.append({'kind': 'literals', 'n': 25000})
+        for part in range(8):
+            shards.append({'kind': 'sheets', 'n': 40})
     return shards
 
 
@@ -339,9 +343,88 @@ def run_literals(shard, ctx):
     r.sample({'literals': ['=' + t for t in texts[:5]]})
 
 
+SHEET_TITLES = ['1', '2', '0', '3', '10', '2024', 'Data_2', 'my sheet', '\u041b\u0438\u0441\u04421', 'A1', 'TRUE', 'x.y', 'S', '01']
+
+
+def qual(title):
+    simple = title.isascii() and title.replace('_', '').isalnum() and not title[0].isdigit() and title not in ('A1', 'TRUE')
+    return (title if simple else "'" + title + "'") + '!'
+
+
+def run_sheets(shard, ctx):
+    """operands living on other worksheets - titles that are all digits (and differ from the sheet's own position), quoted titles,
+    titles shaped like addresses - supplied by the workbook and by overrides addressed by title or by index"""
+    from excel2pycl import Cell
+    r, rng = ctx.r, ctx.rng
+    for b in range(shard['n']):
+        ns = rng.randrange(3, 6)
+        while True:
+            titles = rng.sample(SHEET_TITLES, ns)
+            # at least one all-digit title below the sheet count that is not the position of its sheet
+            if any(t.isdigit() and int(t) < ns and int(t) != i for i, t in enumerate(titles)):
+                break
+        sheets = []
+        for si, t in enumerate(titles):
+            cells = {f'{c}1': (si + 1) * 10 + k + (0.5 if k == 3 else 0) for k, c in enumerate('ABCDE')}
+            cells.update({'A2': f't{si}', 'B2': 'bb'})
+            sheets.append(wbspec.sheet(t, cells))
+        calc = rng.randrange(ns)
+        where = {}
+        for i in range(24):
+            n_op = rng.randrange(2, 5)
+            parts = []
+            for k in range(n_op):
+                t = rng.choice(titles)
+                a = rng.choice(NCELLS) if rng.random() < 0.85 else rng.choice(['A2', 'B2'])
+                parts.append((qual(t) if (t != titles[calc] or rng.random() < 0.5) else '') + a)
+                if k < n_op - 1:
+                    parts.append(rng.choice(['+', '-', '*', '/', '&', '=', '<', '>=', '<>']))
+            f = '=' + ''.join(parts)
+            addr = f'J{i + 4}'
+            sheets[calc]['cells'][addr] = f
+            where[addr] = f
+        spec = wbspec.spec(*sheets)
+        book = pipeline.Book(spec, ctx.workdir, name=f'sh{b}')
+        r.count('books:' + book.mode)
+        if book.cls is None:
+            report(r, ID, None, {'spec': spec}, book.whole.brief(), 'a workbook with cross-sheet operands translates', monitor='operator-semantics')
+            continue
+        vals = [[]]
+        for _ in range(3):
+            vals.append([(rng.randrange(ns), rng.choice(NCELLS), rng.choice([-4, 2.5, 7, 0.5, 100, 0, 3])) for _ in range(rng.randrange(1, 5))])
+        for vi, val in enumerate(vals):
+            ov = {(titles[s], *wbspec.rc(a)): v for (s, a, v) in val}
+            by_title = vi % 2 == 1
+            for addr, f in where.items():
+                try:
+                    outs, _ = evalr.outcomes(evalr.Env(spec, ov), titles[calc], addr, strict_text=True)
+                except (evalr.NoOpinion, ParseError, evalr.Cycle):
+                    r.count('ref_no_opinion')
+                    continue
+
+                def lib():
+                    ex = pipeline.Executor().set_executed_class(class_object=book.cls)
+                    if val:
+                        ex.set_cells([Cell(titles[s], a[0], a[1:], v) if by_title else pipeline.ncell(s, *wbspec.rc(a), v) for (s, a, v) in val])
+                    return ex.get_cell(Cell(titles[calc], addr[0], addr[1:]) if by_title else pipeline.ncell(calc, *wbspec.rc(addr))).value
+                out = pipeline.guarded(lib, 'evaluate')
+                r.ev()
+                r.count('cross_sheet_operand_evaluations')
+                if not outcome_matches(out, outs, exact=False):
+                    report(r, ID, None, {'formula': f, 'cell': addr, 'sheet': calc, 'titles': titles, 'overrides': [[s, a, v] for (s, a, v) in val],
+                                         'addressed_by': 'title' if by_title else 'index', 'spec': spec}, out.brief(), outs, monitor='operator-semantics')
+                r.nt((f, tuple(titles), vi))
+    r.sample({'sheet_titles': SHEET_TITLES})
+
+
 def run_shard(shard, ctx):
+    if shard.get('kind') == 'sheets':
+        return run_sheets(shard, ctx)
     if 'replay' in shard:
         c = shard['replay']
+        if 'titles' in c:
+            ctx.r.inconcl('cross-sheet cases are regenerated from VERIF_SEED; re-run the check with the recorded seed')
+            return
         if c.get('literal'):
             t = c['formula'][1:]
             book = pipeline.Book(wbspec.spec(wbspec.sheet('S1', {'A1': c['formula']})), ctx.workdir, name='rep')
